@@ -63,9 +63,17 @@ RECURSIVE LcmOf(_)
 LcmOf(s) == IF s = <<>> THEN 1 ELSE Lcm(Head(s), LcmOf(Tail(s)))
 
 \* a fixed total order on the action names used by the generated documents (TLC cannot compare
-\* strings): position in this list
-Alphabet == <<"a", "a0", "a1", "a2", "a3", "a4", "a5", "b", "bad", "bet", "c", "call", "check", "d", "fold",
-              "go", "good", "h", "l", "m", "mid", "only", "r", "stop", "t">>
+\* strings): position in this list = byte order; every base name also with the suffixes ` "q"` and `\b`
+\* (characters that need escaping in both input formats)
+Alphabet == <<"a", "a \"q\"", "a0", "a0 \"q\"", "a0\\b", "a1", "a1 \"q\"", "a1\\b", "a2",
+              "a2 \"q\"", "a2\\b", "a3", "a3 \"q\"", "a3\\b", "a4", "a4 \"q\"", "a4\\b", "a5",
+              "a5 \"q\"", "a5\\b", "a\\b", "b", "b \"q\"", "b\\b", "bad", "bad \"q\"", "bad\\b",
+              "bet", "bet \"q\"", "bet\\b", "c", "c \"q\"", "c\\b", "call", "call \"q\"",
+              "call\\b", "check", "check \"q\"", "check\\b", "d", "d \"q\"", "d\\b", "fold",
+              "fold \"q\"", "fold\\b", "go", "go \"q\"", "go\\b", "good", "good \"q\"", "good\\b",
+              "h", "h \"q\"", "h\\b", "l", "l \"q\"", "l\\b", "m", "m \"q\"", "m\\b", "mid",
+              "mid \"q\"", "mid\\b", "only", "only \"q\"", "only\\b", "r", "r \"q\"", "r\\b",
+              "stop", "stop \"q\"", "stop\\b", "t", "t \"q\"", "t\\b">>
 Rank(a) == IF \E i \in 1..Len(Alphabet) : Alphabet[i] = a
            THEN CHOOSE i \in 1..Len(Alphabet) : Alphabet[i] = a ELSE 0
 ByRank(x, y) == Rank(x.a) < Rank(y.a)
